@@ -35,6 +35,8 @@ func runC14(c *Ctx) {
 	c.Rule("C14.O7", "E5", "a WebSocket connection's executor is its parser's or the bound Execute of its nbio.Conn, never the inline executor on a poller-served connection (same rule as C05.O6): the close job must queue behind running message callbacks", 8)
 	wsExecutorStores(c, "C14.O7")
 	c.Rule("C14.O9", "E4", "a connection transferred to the poller is registered (AddTransferredConn) only after its open handler has run, or its callbacks are queued behind it: otherwise a message that arrives right after the handshake is handled while the open handler is still running", 2)
+	c.Rule("C14.O10", "E5", "the close callback runs after the message callbacks: inside the websocket package CloseAndClean is called only from the deferred cleanup of the function that runs the blocking read loop (every other closer goes through the connection's Close and leaves the callback to the reader or to the engine's close hook)", 1)
+	c14WhoCleans(c)
 	c14TransferAfterOpen(c)
 	c.Rule("C14.O8", "E4", "handlers are run inline (SyncCall) only on the isBlockingMod edge, where the connection has its own read goroutine; otherwise they go through the connection's Execute", 4)
 	wsSyncCallScope(c, "C14.O8")
@@ -486,5 +488,40 @@ func c14TransferAfterOpen(c *Ctx) {
 	}
 	if n == 0 {
 		c.Unres("C14.O9", "AddTransferredConn sites", "none found")
+	}
+}
+
+// c14WhoCleans: O10.  In the blocking modes the message callbacks run on the
+// reading goroutine (directly or through its job queue); CloseAndClean in that
+// goroutine's deferred cleanup is therefore ordered after them.  The same call
+// from the send-queue drainer or any other goroutine runs the close callback
+// next to a message callback that is still executing.
+func c14WhoCleans(c *Ctx) {
+	cnt := map[string]int{}
+	for _, f := range c.pkgFuncs("websocket") {
+		for _, cs := range c.P.CallsNamed(f, "(*websocket.Conn).CloseAndClean") {
+			on := c.P.FuncName(ir.Outermost(f))
+			cnt[on]++
+			key := fmt.Sprintf("%s: CloseAndClean#%d", on, cnt[on])
+			ok := false
+			why := "CloseAndClean is called at " + c.Pos(cs.In) + " outside the deferred cleanup of the read loop: the close callback can run while a message callback of the same connection is still executing on the reading goroutine"
+			if parent := f.Parent(); parent != nil {
+				deferred := false
+				for _, b := range parent.Blocks {
+					for _, in := range b.Instrs {
+						if d, isD := in.(*ssa.Defer); isD {
+							if mc, isMC := d.Call.Value.(*ssa.MakeClosure); isMC && mc.Fn == ssa.Value(f) {
+								deferred = true
+							}
+						}
+					}
+				}
+				reads := len(c.P.Calls(parent, func(name string, _ ir.CallSite) bool { return strings.HasSuffix(name, ".Read") })) > 0
+				ok = deferred && reads
+			} else if _, isD := cs.In.(*ssa.Defer); isD {
+				ok = len(c.P.Calls(f, func(name string, _ ir.CallSite) bool { return strings.HasSuffix(name, ".Read") })) > 0
+			}
+			c.Cond(ok, "C14.O10", key, c.Pos(cs.In), "deferred cleanup of the read loop", why)
+		}
 	}
 }
